@@ -154,6 +154,43 @@ Definition is_nilnil e := match e with EReturn true None => true | _ => false en
 Definition safeops_delta tr := delta is_lock is_unlock tr.
 Definition vigil_delta tr := delta is_begin is_cease tr.
 
+(* ---------- requests with several swamp entries (Set, Get) ----------
+   These handlers validate EVERY entry in a first loop and only then start to work: the outcome of
+   the request is the first entry outcome that is not Proceed, and no entry is executed unless all
+   of them pass. [run_many] is the trace of such a handler; [run_many_single_pass] is the trace of a
+   handler that validates each entry right before executing it (not the code that exists; kept to
+   state what the two-pass order buys). *)
+Fixpoint validate_many (c : vcfg) (h : handler) (shs : list shape) : outcome :=
+  match shs with
+  | [] => Proceed
+  | sh :: t => match validate c h sh with Proceed => validate_many c h t | o => o end
+  end.
+Definition exec_entries (h : handler) (n : nat) : list ev :=
+  flat_map (fun _ => [ESummon; EBegin; ECease]) (seq 0 n).
+Definition ret_of (o : outcome) : list ev :=
+  match o with
+  | Reject e wr => [EReturn (negb wr) (Some e)]
+  | PanicAt => [ERecover; EReturn true None]
+  | Proceed => [EReturn false None]
+  end.
+Definition run_many (c : vcfg) (h : handler) (shs : list shape) : list ev :=
+  [ELock] ++
+  match validate_many c h shs with
+  | Proceed => exec_entries h (length shs) ++ ret_of Proceed
+  | o => ret_of o
+  end ++ [EUnlock].
+Fixpoint single_pass (c : vcfg) (h : handler) (shs : list shape) : list ev :=
+  match shs with
+  | [] => ret_of Proceed
+  | sh :: t => match validate c h sh with
+               | Proceed => [ESummon; EBegin; ECease] ++ single_pass c h t
+               | o => ret_of o
+               end
+  end.
+Definition run_many_single_pass (c : vcfg) (h : handler) (shs : list shape) : list ev :=
+  [ELock] ++ single_pass c h shs ++ [EUnlock].
+Definition is_reject_ret e := match e with EReturn _ (Some _) => true | _ => false end.
+
 (* ---------- evaluation of the C26 correspondence cases ---------- *)
 (* observation of one call: response nil?, gRPC code (0 = no error), recovered panics logged during
    the call, watchdog fired, safeops counter afterwards, number of open swamps whose vigil counter is
@@ -161,12 +198,19 @@ Definition vigil_delta tr := delta is_begin is_cease tr.
 Record vcase := {
   vc_h : option handler;   (* None: a handler outside the modelled prefix table (oracle only) *)
   vc_sh : shape;
-  vc_nil : bool; vc_code : Z; vc_panics : Z; vc_hang : bool; vc_safeops : Z; vc_vigil_bad : Z
+  vc_nil : bool; vc_code : Z; vc_panics : Z; vc_hang : bool; vc_safeops : Z; vc_vigil_bad : Z;
+  vc_escaped : bool;       (* a panic left the handler: no gRPC layer above would have recovered it *)
+  vc_changed : bool;       (* existence or contents of a swamp named by the request differ after the call *)
+  vc_nilelem : bool        (* the request holds a nil element in a repeated message field (in-process only) *)
 }.
 Definition code_of (e : err) : Z := match e with EInvalid => 3 | EFailedPre => 9 | EInternal => 13 end.
+(* a rejection: no response, and the code of a validation error *)
+Definition rejected (v : vcase) : bool := vc_nil v && ((vc_code v =? 3) || (vc_code v =? 9)).
 Definition vcheck (v : vcase) : N :=
   if vc_hang v then 4%N
-  else if negb (vc_panics v =? 0) then 3%N
+  else if vc_escaped v then 8%N
+  else if negb (vc_panics v =? 0) then (if vc_nilelem v then 9%N else 3%N)
+  else if rejected v && vc_changed v then 7%N
   else if vc_nil v && (vc_code v =? 0) then 2%N
   else if negb (vc_safeops v =? 0) then 5%N
   else if negb (vc_vigil_bad v =? 0) then 6%N
